@@ -137,6 +137,13 @@ func (fe *FnEnc) callWithArgs(st *State, instr ssa.Instruction, common *ssa.Call
 	} else if callee.Pkg != nil {
 		short = callee.Pkg.Pkg.Name() + "." + callee.Name()
 	}
+	// file system: every call into package os (and friends) that is not known to be read-only counts as a
+	// mutation of the file system (ghost counter fswrites, C14)
+	fe.fsPathObligations(st, callee, args, pos)
+	if fsMutating(callee) {
+		fe.setComp(st, "fswrites", sInt, tArith("+", fe.getComp(st, "fswrites", sInt), tInt(1)))
+		fe.assumed["file system: every os call outside the read-only list counts as a write: "+name] = true
+	}
 	// effects table
 	if h, ok := effects[name]; ok {
 		fe.curCallRecv = nil
@@ -449,7 +456,7 @@ func (fe *FnEnc) resolveModifiesAll(m string) map[string]string {
 	return out
 }
 
-var ghostCompSorts = map[string]string{"held": arrSort(sInt, sBool), "clock": sInt, "fault": sBool, "mutations": sInt, "blobReady": sBool, "truncated": sBool, "FLAGS": arrSort(sStr, sInt),
+var ghostCompSorts = map[string]string{"held": arrSort(sInt, sBool), "clock": sInt, "fault": sBool, "mutations": sInt, "blobReady": sBool, "truncated": sBool, "FLAGS": arrSort(sStr, sInt), "fswrites": sInt,
 	"HDR": arrSort(sInt, arrSort(sStr, sStr)), "M.ResponseWriter.status": arrSort(sInt, sInt), "M.BlobCreator.written": arrSort(sInt, sInt)}
 
 func (fe *FnEnc) safeResolve(env *Env, name string) (t types.Type) {
@@ -533,6 +540,7 @@ func (fe *FnEnc) callEnv(pre, post *State, fc *FuncContract, callee *ssa.Functio
 			bind(p.Name(), args[i], pt)
 			if i == 0 && callee.Signature.Recv() != nil {
 				bind(fc.RecvName, args[i], pt)
+				bind("recv", args[i], pt)
 			} else {
 				if pi < len(fc.Params) {
 					bind(fc.Params[pi], args[i], pt)
@@ -585,6 +593,11 @@ func (fe *FnEnc) applyContract(st *State, instr ssa.Instruction, fc *FuncContrac
 	fe.cutPointsAt(st, fc.Key, fe.callOrd[fc.Key], pos, false)
 	for i := range fc.Requires {
 		cl := &fc.Requires[i]
+		if cl.Invariant {
+			// object invariant: assumed by the callee, established where the object is built (stated there), not re-proved per call
+			fe.assumed["object invariant assumed on entry of "+fc.Key+": "+cl.Label] = true
+			continue
+		}
 		props := cl.Props
 		if props == nil {
 			props = fc.Props
@@ -1153,4 +1166,118 @@ func closureCtor(fn *ssa.Function) (*ssa.Function, []int) {
 		idx = append(idx, found)
 	}
 	return mc.Fn.(*ssa.Function), idx
+}
+
+
+// fsReadOnly lists the functions of package os (and methods of *os.File, os.FileInfo, os.DirEntry) that cannot
+// create, modify or delete anything; every other function of the packages in fsPkgs counts as a write.
+var fsReadOnly = map[string]bool{
+	"os.Stat": true, "os.Lstat": true, "os.Open": true, "os.ReadFile": true, "os.ReadDir": true, "os.IsNotExist": true, "os.IsExist": true,
+	"os.IsPermission": true, "os.Getenv": true, "os.LookupEnv": true, "os.Getwd": true, "os.Getpid": true, "os.Hostname": true, "os.Exit": true,
+	"os.DirFS": true, "os.SameFile": true, "os.IsPathSeparator": true, "os.TempDir": true, "os.UserHomeDir": true, "os.Environ": true,
+	"(*os.File).Close": true, "(*os.File).Read": true, "(*os.File).ReadAt": true, "(*os.File).Seek": true, "(*os.File).Stat": true,
+	"(*os.File).Name": true, "(*os.File).ReadDir": true, "(*os.File).Readdir": true, "(*os.File).Readdirnames": true, "(*os.File).Fd": true,
+	"(*os.File).ReadFrom": false, "(*os.File).WriteTo": true,
+	// writes through an open handle are attributed to the call that opened the file for writing
+	"(*os.File).Write": true, "(*os.File).WriteString": true, "(*os.File).WriteAt": true, "(*os.File).Sync": true,
+	"(*os.PathError).Error": true, "(*os.PathError).Unwrap": true, "(*os.LinkError).Error": true, "(*os.SyscallError).Error": true,
+	"os/signal.Notify": true, "os/signal.Stop": true,
+}
+
+var fsPkgs = map[string]bool{"os": true, "io/ioutil": true, "os/exec": true, "syscall": true}
+
+func fsMutating(callee *ssa.Function) bool {
+	var pkg string
+	if callee.Pkg != nil {
+		pkg = callee.Pkg.Pkg.Path()
+	} else if r := callee.Signature.Recv(); r != nil {
+		if n, ok := derefNamed(r.Type()); ok && n.Obj().Pkg() != nil {
+			pkg = n.Obj().Pkg().Path()
+		}
+	} else if o := callee.Object(); o != nil && o.Pkg() != nil {
+		pkg = o.Pkg().Path()
+	}
+	if !fsPkgs[pkg] {
+		return false
+	}
+	return !fsReadOnly[callee.String()]
+}
+
+// goPreconditions: `go f(args)` with f under contract: f's (non-invariant) preconditions must hold when it is spawned.
+// Sound only for facts no other goroutine invalidates before f starts; the contracts used this way speak about
+// configuration that is never written after construction.
+func (fe *FnEnc) goPreconditions(st *State, x *ssa.Go, fc *FuncContract, callee *ssa.Function) {
+	var args []RV
+	for _, a := range x.Call.Args {
+		args = append(args, fe.get(st, a))
+	}
+	pre := st.clone()
+	envPre := fe.callEnv(pre, pre, fc, callee, callee, args, nil, nil)
+	envPre.pre = true
+	fe.callOrd["go "+fc.Key]++
+	for i := range fc.Requires {
+		cl := &fc.Requires[i]
+		if cl.Invariant || !cl.Stable {
+			continue
+		}
+		props := cl.Props
+		if props == nil {
+			props = fc.Props
+		}
+		fe.addOblExpr(st, "pre", fmt.Sprintf("go %s:%s@%d", fc.Key, cl.Label, fe.callOrd["go "+fc.Key]), unionProps(props, fe.propsFor(nil)), cl.E, envPre, x.Pos())
+	}
+}
+
+
+// fsPathArgs: which arguments of the functions of package os are paths.
+var fsPathArgs = map[string][]int{
+	"os.Stat": {0}, "os.Lstat": {0}, "os.Open": {0}, "os.ReadFile": {0}, "os.ReadDir": {0}, "os.MkdirAll": {0}, "os.Mkdir": {0},
+	"os.WriteFile": {0}, "os.Create": {0}, "os.CreateTemp": {0}, "os.MkdirTemp": {0}, "os.OpenFile": {0}, "os.Remove": {0}, "os.RemoveAll": {0},
+	"os.Rename": {0, 1}, "os.Chtimes": {0}, "os.Chmod": {0}, "os.Chown": {0}, "os.Truncate": {0}, "os.Symlink": {0, 1}, "os.Link": {0, 1},
+	"os.DirFS": {0}, "os.Readlink": {0}, "os.Chdir": {0},
+}
+
+// fsPathObligations: every path handed to package os must satisfy the fspath clauses of the function's contract (C16).
+func (fe *FnEnc) fsPathObligations(st *State, callee *ssa.Function, args []RV, pos token.Pos) {
+	if fe.dry || fe.contract == nil || len(fe.contract.FsPaths) == 0 || callee.Pkg == nil || !fsPkgs[callee.Pkg.Pkg.Path()] {
+		return
+	}
+	idx, known := fsPathArgs[callee.String()]
+	if !known {
+		// unknown function of the package: every string argument is treated as a path
+		for i := 0; i < callee.Signature.Params().Len(); i++ {
+			if b, ok := callee.Signature.Params().At(i).Type().Underlying().(*types.Basic); ok && b.Info()&types.IsString != 0 {
+				idx = append(idx, i)
+			}
+		}
+	}
+	for _, i := range idx {
+		if i >= len(args) {
+			continue
+		}
+		for k := range fe.contract.FsPaths {
+			cl := &fe.contract.FsPaths[k]
+			var l *Loop
+			for _, cand := range fe.loops {
+				if fe.curBlock != nil && cand.blocks[fe.curBlock] {
+					l = cand
+				}
+			}
+			env := fe.loopEnv(st, l)
+			sv := SVal{T: fe.val(args[i]), Typ: types.Typ[types.String]}
+			env.names["path"] = sv
+			props := cl.Props
+			if props == nil {
+				props = []string{"C16"}
+			}
+			o := fe.addOblExpr(st, "fspath", cl.Label+":"+fe.srcText(pos, "path"), props, cl.E, env, pos)
+			if o != nil {
+				ord0 := 0
+				if l != nil {
+					ord0 = l.ord
+				}
+				o.Uses = resolveUses(cl.Uses, ord0, "")
+			}
+		}
+	}
 }
